@@ -30,9 +30,12 @@ def instantiate(d):
         if "grid" in d:
             G.active_vertices_connected(s, BoolArray2D(x, (h, w)), acyclic=acyclic, use_graph_primitive=prim)
         else:
-            g = G.Graph(n)
-            for (u, v) in edges:
-                g.add_edge(u, v)
+            from bounded import graphprops
+            from cspuz import Solver as _S
+            def warm(g):
+                s2 = _S()
+                G.active_vertices_connected(s2, list(s2.bool_array(n)), g, acyclic=acyclic, use_graph_primitive=prim)
+            g = graphprops._graph(G, n, edges, d.get("build", "plain"), warm)
             G.active_vertices_connected(s, x, g, acyclic=acyclic, use_graph_primitive=prim)
         return None
 
@@ -72,7 +75,7 @@ def descs(tier):
 
 def bounded(tier, seed, rep):
     from bounded import graphprops
-    emission.run_parallel(rep, PROP, MOD, list(descs(tier)) + graphprops.deep_descs(PROP, tier))
+    emission.run_parallel(rep, PROP, MOD, list(graphprops.with_builds(list(descs(tier)) + graphprops.deep_descs(PROP, tier))))
 
 
 def replay(payload):
